@@ -379,7 +379,8 @@ def obligations(tier):
                               claim_doc='as O1-translation (an atom at 0.000 0.000 0.000 is an atom)', max_paths=200))
     # all 24 grid rotations of a structure with interacting side chains: complete, and with an arginine that lacks one
     # guanidinium nitrogen (finding F11: the hydrogens of the remaining terminal nitrogen then get a frame-dependent rotamer)
-    for name in (['pair_GLU_ARG_TYR', 'pair_GLU_ARG_TYR~-NH2@57'] if tier == 'quick' else ['pair_GLU_ARG_TYR', 'pair_ASP_ARG', 'pair_GLU_ARG_TYR~-NH2@57', 'pair_GLU_ARG_TYR~-NH1@57', 'pair_GLU_ARG_TYR~-NE@57', 'pair_ASP_ARG~-NH1@87']):
+    # ('name/57:CZ-NH1-NH2-NE': the structure turned so that the guanidinium plane of residue 57 is exactly z = const: plane normals with exactly zero components)
+    for name in (['pair_GLU_ARG_TYR', 'pair_GLU_ARG_TYR/57:CZ-NH1-NH2-NE', 'pair_GLU_ARG_TYR~-NH2@57'] if tier == 'quick' else ['pair_GLU_ARG_TYR', 'pair_GLU_ARG_TYR/57:CZ-NH1-NH2-NE', 'pair_ASP_ARG/87:CZ-NH1-NH2-NE', 'pair_ASP_ARG', 'pair_GLU_ARG_TYR~-NH2@57', 'pair_GLU_ARG_TYR~-NH1@57', 'pair_GLU_ARG_TYR~-NE@57', 'pair_ASP_ARG~-NH1@87']):
         obs.append(Obligation('O4-rotations[%s]' % name, mk_rotations(name), code=code_pipe + ['propka/protonate.py:Protonate.trigonal', 'propka/vector_algebra.py:Vector.orthogonal'],
                               bounds='micro-structure %s in each of the 24 axis-permuting proper rotations' % name,
                               claim_doc='as O1-translation, hydrogens compared after the same rotation', max_paths=200, split_input=('rotation', 8),
